@@ -617,6 +617,36 @@ theorem lemma_urlFor (s : St) (m : Mon) (hR : Rel s m) (i : Nat) (r : RouteId) (
   · have hfr' : s.core.frozen = false := by simpa using hfr
     simp [Mon.next, hfr', hR.serving]
 
+theorem lemma_next_bad (m : Mon) (i : Nat) (r : RouteId) (res : Res) :
+    m.next (.whereBad r) { actor := i, vis := .done, out := .mut res } =
+      (if mutationOK m (m.accepted.contains r) res then some m else none) := by
+  simp [Mon.next]
+
+theorem lemma_whereBad (s : St) (m : Mon) (hR : Rel s m) (i : Nat) (r : RouteId) (hi : i < s.status.length) :
+    ∃ m', m.next (.whereBad r)
+        { actor := i, vis := visOf (setStatus s i .finished) i, out := .mut (mutateRes s.core r) } = some m' ∧
+      Rel (setStatus s i .finished) m' := by
+  rw [lemma_setStatus_vis_finished s i hi, lemma_next_bad]
+  refine ⟨m, ?_, lemma_rel_setStatus s m hR i _ (Or.inl (by simp))⟩
+  by_cases hobj : s.core.objs.contains r = true
+  · have hacc : m.accepted.contains r = true := by rw [hR.accepted]; exact hobj
+    have hmem : r ∈ m.accepted := by simpa using hacc
+    by_cases hfr : s.core.frozen = true
+    · have hres : mutateRes s.core r = .rejected := by
+        simp only [mutateRes, hobj, hfr, Bool.not_true, Bool.false_eq_true, ↓reduceIte]
+      have hsb : m.servingBegun = true := by rw [hR.serving]; exact hfr
+      rw [hres]; simp [hmem, mutationOK, hsb]
+    · have hfr' : s.core.frozen = false := by simpa using hfr
+      have hres : mutateRes s.core r = .accepted := by
+        simp only [mutateRes, hobj, hfr', Bool.not_true, Bool.false_eq_true, ↓reduceIte]
+      have hsb : m.servingBegun = false := by rw [hR.serving]; exact hfr'
+      rw [hres]; simp [hmem, mutationOK, hsb]
+  · have hobj' : s.core.objs.contains r = false := by simpa using hobj
+    have hacc : m.accepted.contains r = false := by rw [hR.accepted]; exact hobj'
+    have hmem : r ∉ m.accepted := by simpa using hacc
+    have hres : mutateRes s.core r = .na := by simp only [mutateRes, hobj', Bool.not_false, ↓reduceIte]
+    rw [hres]; simp [hmem, mutationOK]
+
 /-- a request parked at `serve.frozen` consults the tree -/
 theorem lemma_lookup (s : St) (m : Mon) (hR : Rel s m) (i : Nat) (t : RouteId) (v : Bool)
     (hs : s.status[i]? = some .atFrozen) :
@@ -687,6 +717,7 @@ theorem lemma_stepActor (kinds : List Kind) (s : St) (m : Mon) (hR : Rel s m) (i
     | whereInt r => exact lemma_whereInt s m hR i r hi
     | setName r => exact lemma_setName s m hR i r hi
     | urlFor r => exact lemma_urlFor s m hR i r hi
+    | whereBad r => exact lemma_whereBad s m hR i r hi
 
 theorem lemma_wakeF_length (kinds : List Kind) (s : St) (h : s.status.length = kinds.length) :
     (wakeF kinds s).status.length = s.status.length := by
